@@ -4,6 +4,7 @@ from vlib import run_pair
 PID = "C08"
 MODEL_VOS = ["model/KeyTime.vo"]
 ASSUMPTIONS = [
+    "second driver c08t (virtual time): the real metadata Marshal/Unmarshal of pkg/protocol (through the C09 export hooks) run at controlled instants around minute ticks and slot changes; compared with minute()/timestamp_ok of the model and judged against the property text",
     "instants lie in the era where the uint32 minute counter does not wrap (60 s <= t < (2^32-1)*60 s); the wrap corner is compared (W cases) but not claimed",
     "the jitter drawn by getCachedCiphers is not observable: the model runner accepts a lookup iff jitter 0 or max-1 explains it (monotone in the jitter)",
     "Go's time.Round / time.Unix are modelled by go_round and the unixToInternal constant and compared on every E case",
@@ -11,7 +12,8 @@ ASSUMPTIONS = [
 
 
 def run(ctx):
-    return [run_pair(ctx, "c08", PID, MODEL_VOS)]
+    return [run_pair(ctx, "c08", PID, MODEL_VOS),
+            run_pair(ctx, "c08t", PID, MODEL_VOS, faketime=True, subdir="c08t")]
 
 
 def search(ctx):
